@@ -150,7 +150,7 @@ func kindOfFirst(blocks []*cm.RootBlock) any {
 // other block construct or contains inline syntax other than raw HTML.
 var htmlLineMenu = []string{
 	"", "x",
-	"<script>", "<pre x>", "<STYLE", "<textarea>y", "<scriptx>", "</script>", "x</pre>y",
+	"<script>", "<pre x>", "<STYLE", "<textarea>y", "<scriptx>", "</script>", "x</pre>y", "</STYLE>",
 	"<!--", "-->", "<!-- a -->",
 	"<?", "?>",
 	"<!A", "a>",
